@@ -554,6 +554,23 @@ Definition migrate_exchange (old new0 : session) (localm : machine) (srv : sessi
   do '(r, _) <- read_info flat_ops infoSyncMigrate srv (write_info infoSyncMigrate ns);
   Ok (ns, px, fst r).
 
+(* ---- the migration window: hand-off written, not yet confirmed --------------------------------
+   c2/x_key.go keyNextSync: a client starts a key rotation in an idle exchange when its 1-in-N draw
+   fires, no rotation is pending and the Session is NOT Moving; MigrateProfile sets Moving before it
+   writes the hand-off.  The ECDH itself is not modelled: the key material a completed rotation leaves
+   on both ends is an input (fresh).  roll = the draw fired. *)
+Definition idle_exchange (moving : bool) (c : session) (x : bool * keys) : session :=
+  if fst x && s_client c && negb moving then set_keys c (snd x) else c.
+Definition exchanges (moving : bool) (c : session) (h : list (bool * keys)) : session :=
+  fold_left (idle_exchange moving) h c.
+(* exchanges before the migration starts, the hand-off, exchanges inside the window, then the new
+   process reads the hand-off: the session it loads, and the old client at confirmation *)
+Definition window_exchange (c : session) (pre win : list (bool * keys)) (new0 : session) : res (session * session) :=
+  let c1 := exchanges false c pre in
+  let c2 := exchanges true c1 win in
+  do '(r, _) <- read_info flat_ops infoMigrate new0 (write_info infoMigrate c1);
+  Ok (fst r, c2).
+
 (* ---- correspondence cases ----------------------------------------------------------------
    Long byte strings are described by a generator evaluated here (the harness builds the same
    bytes): byte i of gen_bytes n a b is (a + i*b) mod 256. *)
@@ -621,7 +638,9 @@ Inductive case :=
 | CDirect (srv cli : session) (e : entry) (out : res (option (list Z) * session * session))
   (* one real task through muxHandleInternal and handleInfoResult *)
 | CSites (writes reads : list (site * kexpr))
-| CMigrate (old new0 : session) (localm : machine) (srv : session) (out : res (session * list pdata * session)).
+| CMigrate (old new0 : session) (localm : machine) (srv : session) (out : res (session * list pdata * session))
+| CWindow (c : session) (pre win : list (bool * keys)) (new0 : session) (out : res (session * session)).
+  (* real key functions: forced re-key rolls before and inside the migration window; loaded session, old client *)
   (* a real in-process migration: MigrateProfile -> pipe -> LoadContext -> MvMigrate result -> server *)
   (* the call sites of writeDeviceInfo / readDeviceInfo found in the c2 sources of this run *)
   (* real proxy operations h on the client s0, then writeDeviceInfo(k): bytes, and what r0 reads back
@@ -673,6 +692,9 @@ Definition check (c : case) : bool :=
     res_eqb (fun x y => session_eqb (fst (fst x)) (fst (fst y)) && list_eqb pdata_eqb (snd (fst x)) (snd (fst y)) &&
                         session_eqb (snd x) (snd y))
             (match migrate_exchange old new0 localm srv with Err _ => Err 1 | x => x end) out
+  | CWindow c pre win new0 out =>
+    res_eqb (fun x y => session_eqb (fst x) (fst y) && session_eqb (snd x) (snd y))
+            (match window_exchange c pre win new0 with Err _ => Err 1 | x => x end) out
   | CSites ws rs =>
     list_eqb sk_eqb ws (map (fun p => (pr_site p, pr_kind p)) producers) && list_eqb sk_eqb rs consumers
   | CProxyHist s0 h k r0 sp out rd =>
